@@ -845,3 +845,14 @@ func SpecContains(s string, sub string) bool { return false }
 //@   modifies heap, succOk
 //@   set succOk = ite(result == nil || (exists i int :: 0 <= i && i < len(mc.aofSegs) - 1 && mc.aofSegs[i] == current && mc.aofSegs[i + 1] == result), 1, 0) after call nextAofSegment
 //@   assert at call acquire: a_reader_moves_only_to_the_successor_of_its_own_segment: succOk == 1
+
+// ---- re-keying after a replication-id change: a failed attempt leaves the id the stored -------
+// ---- position is filed under untouched, so the retry re-keys FROM it again (C07, C17) --------
+//@ func RedisOutput.SetRunId$1
+//@   arith int
+//@   properties C07 C17
+//@   replay syncer_SetRunId
+//@   requires nonnil: ro != nil
+//@   modifies heap, phase, curDb, cpDb
+//@   ensures failed_attempt_keeps_the_previous_id: result != nil ==> ro.cfg.RunId == old(ro.cfg.RunId)
+//@   ensures successful_attempt_adopts_the_new_id: result == nil ==> ro.cfg.RunId == id
